@@ -2,8 +2,13 @@ package main
 
 import (
 	"fmt"
+	"os"
 	"path/filepath"
 	"sort"
+
+	"github.com/oasisprotocol/oasis-core/go/common/cbor"
+	"github.com/oasisprotocol/oasis-core/go/consensus/api/transaction"
+	staking "github.com/oasisprotocol/oasis-core/go/staking/api"
 
 	"verif/engine/chainsim"
 )
@@ -22,8 +27,53 @@ func runReadFaultCase(c chainsim.Case, rep chainsim.Reporter, scratch string) {
 		rep.Inconclusive("setup failed: " + err.Error())
 		return
 	}
+	// Stale transactions of signers that have nothing else in the block (so their account is not in the
+	// node cache of a freshly started node): nonce 0 and the nonce just used, with and without a fee.
+	stale := 0
+	h.Gen.Extra = func(g *chainsim.TxGen, height int64, base []*chainsim.GenTx) []*chainsim.GenTx {
+		rng := g.Rng()
+		busy := map[staking.Address]bool{}
+		for _, b := range base {
+			if b.Signer != nil {
+				busy[b.Signer.Addr] = true
+			}
+		}
+		var out []*chainsim.GenTx
+		signers := g.History().Sc.Signers
+		for try := 0; try < 8 && len(out) < 3; try++ {
+			a := signers[rng.IntN(len(signers))]
+			acct := g.History().View.Accounts[a.Addr]
+			if busy[a.Addr] || acct == nil || acct.General.Nonce == 0 {
+				continue
+			}
+			busy[a.Addr] = true
+			nonce := uint64(0)
+			if rng.IntN(4) == 0 {
+				nonce = acct.General.Nonce - 1
+			}
+			var fee *transaction.Fee
+			// Mostly transactions that cost nothing (no fee, or a gas limit at price zero): what an
+			// account that looks empty could still afford.
+			switch rng.IntN(4) {
+			case 0:
+				fee = &transaction.Fee{Gas: transaction.Gas(2000 + rng.IntN(500))}
+				_ = fee.Amount.FromUint64(uint64(fee.Gas) * g.History().Sc.P.MinGasPrice)
+			case 1:
+				fee = &transaction.Fee{Gas: transaction.Gas(2000 + rng.IntN(500))}
+			}
+			tx := staking.NewTransferTx(nonce, fee, &staking.Transfer{To: signers[rng.IntN(len(signers))].Addr})
+			st, err := transaction.Sign(a.Signer, tx)
+			if err != nil {
+				panic(err)
+			}
+			out = append(out, &chainsim.GenTx{Raw: cbor.Marshal(st), Signer: a, Tx: tx, Method: string(tx.Method), Intent: "stale-nonce", Note: "readfault"})
+			stale++
+		}
+		return out
+	}
 	h.Run()
 	chainsim.ReportCommon(h, rep)
+	rep.Count("readfault.stale_transactions_of_idle_signers_generated", int64(stale))
 	st := h.ReadFault
 	rep.Count("readfault.histories", 1)
 	rep.Count("readfault.histories."+backend, 1)
@@ -36,6 +86,7 @@ func runReadFaultCase(c chainsim.Case, rep chainsim.Reporter, scratch string) {
 	rep.Count("readfault.not_aborted_result_differs", int64(st.SilentDifferent))
 	rep.Count("readfault.fault_inside_delivertx", int64(st.InTx))
 	rep.Count("readfault.fault_inside_delivertx_of_nonce_refused_tx", int64(st.InStaleTx))
+	rep.Count("readfault.fault_aimed_at_free_nonce_refused_tx", int64(st.InFreeStaleTx))
 	rep.Count("readfault.node_reads_counted", int64(st.ReadsCounted))
 	rep.Count("readfault.twin_resynced_after_silent_difference", int64(st.Resynced))
 	if st.Dead {
@@ -58,7 +109,7 @@ func runReadFaultCase(c chainsim.Case, rep chainsim.Reporter, scratch string) {
 		rep.Violation(f.Signature, f.What, map[string]any{"params": h.Sc.P, "detail": f.Detail})
 	}
 	for i, d := range h.ReadFaultSilent {
-		if i < 2 {
+		if i < 2 || os.Getenv("VERIF_DEBUG_RF") != "" {
 			rep.Sample(map[string]any{"readfault_silent_difference": d})
 		}
 	}
